@@ -30,7 +30,7 @@ theorem not_isNaN_of_le (m : Bits) (h : m.toNat ≤ 0x7FF0000000000000) : isNaN 
     rw [isNaN_iff] at hn
     omega
 
-theorem or_negZero_toNat (m : Bits) (h : m.toNat < 2 ^ 63) : (m ||| negZero).toNat = 2 ^ 63 + m.toNat := by
+theorem or_negZero_toNat_c04 (m : Bits) (h : m.toNat < 2 ^ 63) : (m ||| negZero).toNat = 2 ^ 63 + m.toNat := by
   rw [UInt64.toNat_or]
   have : negZero.toNat = 2 ^ 63 := by decide
   rw [this, Nat.or_comm]
@@ -41,7 +41,7 @@ theorem not_isNaN_or_negZero (m : Bits) (h : m.toNat ≤ 0x7FF0000000000000) : i
   cases hn : isNaN (m ||| negZero) with
   | false => rfl
   | true =>
-    rw [isNaN_iff, or_negZero_toNat m (by omega)] at hn
+    rw [isNaN_iff, or_negZero_toNat_c04 m (by omega)] at hn
     omega
 
 theorem roundMag_le (n d : Nat) : (roundMag n d).toNat ≤ 0x7FF0000000000000 := by
